@@ -7,8 +7,21 @@ import Driver.Numeric
 namespace Driver.Numeric
 open Pomerol Pomerol.Model Driver
 
+structure LTerm where
+  value : C
+  factors : List (Bool × String × Nat × Nat)   -- (creation?, label hex, orbital, spin)
+
 structure Acc where
   s : Sys := {}
+  quadratic : Bool := false
+  /-- lattice dumps: the two most recent (`lterm` lines), and the preset executed between them -/
+  prevTerms : List LTerm := []
+  curTerms : List LTerm := []
+  curSites : List (String × Nat × Nat) := []
+  lastPreset : List String := []
+  segment : List (List String) := []    -- lattice-building commands since the last dump
+  dumps : Nat := 0
+  idxTable : List (String × Nat × Nat) := []   -- index ↦ (label hex, orb, spin)
   fails : Nat := 0
   counts : List (String × Nat) := []
   /-- cached eigenbasis annihilators C_i = V† c_i V -/
@@ -49,12 +62,19 @@ def specG (s : Sys) (w : Array Float) (ci cj : Mat) (z : C) : C × Float × Floa
     let (g, budget, tot) := acc
     (g + t, budget + (if r.abs ≤ 2.0e-8 then t.abs else 0.0), tot + t.abs)) acc) (czero, 0.0, 0.0)
 
+/-- `w_n · e^{τ(E_n − E_m)}` evaluated without overflow for `0 ≤ τ ≤ β`:
+`exp(−(β−τ)(E_n−E₀) − τ(E_m−E₀)) / Z` -/
+def boltz (s : Sys) (tau : Float) (n m : Nat) : Float :=
+  let e0 := s.E.foldl (fun mn x => if x < mn then x else mn) (s.E[0]!)
+  let z := s.E.foldl (fun acc e => acc + Float.exp (-(s.beta) * (e - e0))) 0.0
+  Float.exp (-((s.beta - tau) * (s.E[n]! - e0)) - tau * (s.E[m]! - e0)) / z
+
 def specGtau (s : Sys) (w : Array Float) (ci cj : Mat) (tau : Float) : C :=
   (List.range s.dim).foldl (fun acc n => (List.range s.dim).foldl (fun (acc : C) m =>
     let x := mget ci n m
     if x.re == 0.0 && x.im == 0.0 then acc else
     -- −⟨c_i(τ) c†_j⟩ = −Σ w_n e^{τ(E_n − E_m)} C_nm conj(Cj_nm)
-    acc - x * (mget cj n m).conj * ofR (w[n]! * Float.exp (tau * (s.E[n]! - s.E[m]!)))) acc) czero
+    acc - x * (mget cj n m).conj * ofR (boltz s tau n m)) acc) czero
 
 /-- the multi-term of one world line with coefficient 1 (the right-hand side of `simplex_closed_form`);
 returns the value and whether a resonance decision was numerically ambiguous -/
@@ -123,7 +143,39 @@ def specSuscTau (s : Sys) (w : Array Float) (A B : Mat) (tau : Float) : C :=
   (List.range s.dim).foldl (fun acc a => (List.range s.dim).foldl (fun (acc : C) b =>
     let x := mget A a b * mget B b a
     if x.abs == 0.0 then acc else
-    acc + x * ofR (w[a]! * Float.exp (tau * (s.E[a]! - s.E[b]!)))) acc) czero
+    acc + x * ofR (boltz s tau a b)) acc) czero
+
+/-- Gauss-Jordan inverse of a small complex matrix (partial pivoting) -/
+def cinv (a : Mat) : Option Mat := Id.run do
+  let n := a.size
+  let mut m : Mat := (Array.range n).map fun i => (a[i]!) ++ ((Array.range n).map fun j => if i = j then cone else czero)
+  for col in List.range n do
+    let mut piv := col
+    for r in List.range n do
+      if r > col && (mget m r col).abs > (mget m piv col).abs then piv := r
+    if (mget m piv col).abs < 1.0e-300 then return none
+    let tmp := m[col]!
+    m := (m.set! col (m[piv]!)).set! piv tmp
+    let p := mget m col col
+    m := m.set! col ((m[col]!).map (· / p))
+    for r in List.range n do
+      if r != col then
+        let f := mget m r col
+        if f.abs != 0.0 then
+          let rowc := m[col]!
+          m := m.set! r ((Array.range (2 * n)).map fun j => (m[r]!)[j]! - f * rowc[j]!)
+  return some (m.map fun row => row.extract n (2 * n))
+
+/-- matrix of a list of lattice terms read as ordered products of Jordan-Wigner matrices -/
+def termsMatrix (M : Nat) (idx : List (String × Nat × Nat)) (ts : List LTerm) : Option Mat :=
+  ts.foldlM (fun (acc : Mat) t =>
+    let ops : Option (List Op) := t.factors.mapM fun (cre, l, o, sp) =>
+      (idx.findIdx? (· == (l, o, sp))).map fun i => (⟨!cre, i⟩ : Op)
+    match ops with
+    | none => none
+    | some ops =>
+      let prod := ops.foldl (fun (p : Mat) o => matMul p (opMatrix M o)) (ident (2 ^ M))
+      some (matAdd acc (prod.map fun row => row.map (· * t.value)))) (zeros (2 ^ M) (2 ^ M))
 
 def traceWeighted (w : Array Float) (a : Mat) : C :=
   (List.range a.size).foldl (fun acc k => acc + mget a k k * ofR w[k]!) czero
